@@ -123,7 +123,7 @@ fn serialize_f64 …                                                            
 fn serialize_char(self, value: char) -> Result<String> { Ok({ let mut s = String::new(); s.push(value); s }) }
 fn serialize_str(self, value: &str) -> Result<String> { Ok(value.to_owned()) }
 fn collect_str<T>(self, value: &T) -> Result<String> { Ok(value.to_string()) }
-fn serialize_some<T>(self, _value: &T) -> Result<String> { Err(key_must_be_a_string()) }   // NB: the text serializer forwards
+fn serialize_some<T>(self, value: &T) -> Result<String> { value.serialize(self) }
 // bytes, unit, unit_struct, newtype_variant, none, seq, tuple, tuple_struct, tuple_variant, map, struct,
 // struct_variant:                                                       Err(key_must_be_a_string())
 ``` -/
@@ -137,7 +137,7 @@ def keyVal (ext : Ext) : SVal → Except SerErr Bytes
   | .char cp => .ok (utf8 cp)
   | .str s => .ok s
   | .collectStr s => .ok s
-  | .some _ => .error .keyMustBeAString
+  | .some k => keyVal ext k
   | .bytes _ | .unit | .unitStruct | .newtypeVariant _ _ | .none | .seq _ _ | .tuple _
   | .tupleStruct _ | .tupleVariant _ _ | .map _ _ | .struct_ _ | .structVariant _ _
   | .numberLit _ => .error .keyMustBeAString
